@@ -13,7 +13,7 @@ from vlib.mc import enum as E
 PROPERTY = 'C19'
 LEVEL = 'exploration'
 ENGINE = 'C'
-TECHNIQUE = ('bounded-exhaustive enumeration of path shapes x parameters and of '
+TECHNIQUE = ('stateless bounded model checking: complete enumeration of path shapes x parameters and of '
              'item lists against reference split / quote-join functions')
 LEVEL_TEXT = ('Every path built from 0..5 (7 thorough) segments over {plain, '
               'empty, dotted, spaced} with and without leading and trailing '
